@@ -78,6 +78,19 @@ def thin_boxes(P, Q):
     return min(a.right - a.left, a.top - a.bottom) <= 1e-2 and min(b.right - b.left, b.top - b.bottom) <= 1e-2
 
 
+def axis_run(P, Q, t1, t2):
+    """K14 classifier, second form: at the reported parameters one of the two curves runs within one degree of the x- or the y-direction
+    (its pieces there have boxes of next to no area however long they are, so the absolute-area stop rule fires early).  t1 belongs to the
+    operand of higher order (intersections() swaps), so both assignments are tried."""
+    def near_axis(C, t):
+        d = cr.dbez(C, min(1.0, max(0.0, t)))
+        n = math.hypot(*d)
+        if n == 0:
+            return False
+        return min(abs(d[0]), abs(d[1])) / n <= math.sin(math.radians(1.0))
+    return any(near_axis(C, t) for C in (P, Q) for t in (t1, t2))
+
+
 def check_pair(P, Q):
     ref = classify_pair(P, Q)
     if isinstance(ref, str):
@@ -100,7 +113,7 @@ def check_pair(P, Q):
             if d > tol:
                 if thin_top(P, Q):
                     return "K3"
-                if thin_boxes(P, Q):
+                if thin_boxes(P, Q) or axis_run(P, Q, i.t1, i.t2):
                     return "K14"
                 return "%s: phantom: the points at t1=%r and t2=%r are %r apart (> 0.2%% of the extent %r)" % (which, i.t1, i.t2, d, E)
             if not (0 < i.t1 <= 1 and 0 < i.t2 <= 1):
@@ -152,9 +165,10 @@ def check_loop(P):
     return None
 
 
-def check_path(segs):
-    """closed path: every crossing of two non-adjacent segments (in the quantifier's domain) is reported"""
-    path = oc.path_from(segs, True)
+def check_path(segs, closed=True):
+    """every crossing of two non-adjacent segments (in the quantifier's domain) is reported; in an open path the first and the last segment
+    are not neighbours"""
+    path = oc.path_from(segs, closed)
     n = len(segs)
     pts = [p for s in segs for p in s]
     E = combined_extent(pts, pts)
@@ -167,7 +181,7 @@ def check_path(segs):
         return "getSelfIntersections raised %s: %s" % (type(ex).__name__, ex)
     for i in range(n):
         for j in range(i + 2, n):
-            if i == 0 and j == n - 1:
+            if closed and i == 0 and j == n - 1:
                 continue
             if len(segs[i]) == 2 or len(segs[j]) == 2:
                 continue            # line/curve crossings are C05's
@@ -507,7 +521,28 @@ def run_one(kind, inp):
         return check_loop([tuple(p) for p in inp["P"]])
     if kind == "edit":
         return check_after_edit([tuple(p) for p in inp["P"]], inp["seed"])
-    return check_path([[tuple(p) for p in s] for s in inp["segs"]])
+    return check_path([[tuple(p) for p in s] for s in inp["segs"]], inp.get("closed", True))
+
+
+def rand_open_crossing(rng):
+    """an open path of three curves whose last segment crosses the first squarely within 1 % of the first's start or end (or well inside
+    it): first and last are not neighbours in an open path, so the crossing belongs to the answer wherever it is"""
+    S0 = rand_curve(rng, "int")
+    while len(S0) < 3:
+        S0 = rand_curve(rng, "int")
+    t = rng.choice([rng.uniform(0.002, 0.008), rng.uniform(0.992, 0.998), rng.uniform(0.2, 0.8)])
+    c = cr.bez(S0, t)
+    d = cr.dbez(S0, t)
+    n = math.hypot(*d) or 1.0
+    nx, ny = -d[1] / n, d[0] / n                       # across the first segment
+    h = rng.uniform(60, 140)
+    k = rng.uniform(5, 15)
+    tx, ty = d[0] / n, d[1] / n
+    S2 = [(c[0] - nx * h - tx * k, c[1] - ny * h - ty * k), (c[0] - nx * h / 3, c[1] - ny * h / 3),
+          (c[0] + nx * h / 3, c[1] + ny * h / 3), (c[0] + nx * h + tx * k, c[1] + ny * h + ty * k)]      # point-symmetric about c: S2(1/2) = c
+    far = (S0[-1][0] + 400.0 + rng.uniform(0, 100), S0[-1][1] - 300.0)
+    S1 = [S0[-1], (far[0], far[1] + 150.0), (far[0] - 50.0, far[1] - 200.0), S2[0]]
+    return [S0, S1, S2]
 
 
 def search(ctx, budget):
@@ -531,6 +566,8 @@ def search(ctx, budget):
         elif r == 4:
             P = oc.rand_seg_pts(rng, 4, rng.choice(["int", "grid", "float"]))
             kind, inp = "loop", {"P": P}
+        elif i % 18 == 5:
+            kind, inp = "path", {"segs": rand_open_crossing(rng), "closed": False}
         else:
             kind, inp = "path", {"segs": rand_closed(rng)}
         msg = run_one(kind, inp)
